@@ -172,7 +172,9 @@ class Cron(addons.AddonMainTask, block.SBlock):
                 # sleeptime: negative = after the alarm time; positive = before the alarm time
                 if step == 0:
                     self.log_debug("sleep until wakeup: %.3f sec", sleeptime)
-                if step > 1 or sleeptime < 0:
+                if step > 1 or sleeptime < 0 or (step == 1 and sleeptime > _TT_ERROR):
+                    # the last case: way too early after the sleep, i.e. the clock has been
+                    # changed so that the current time precedes the expected wakeup time
                     diff = abs(sleeptime)
                     if self.debug:
                         self.log_debug(
